@@ -7,6 +7,7 @@ CONSTANTS
   MaxFaults = 2
   MaxRecs = 5
   WithFin = TRUE
+  ForeignAct = FALSE
   Foreign = {}
   FixGC = TRUE
   MidEnv = FALSE
